@@ -129,13 +129,14 @@ class HistoryGen:
         rng = self.rng
         n = rng.choice([0, 3, 8, 20, 30, 30, nmax, nmax, nmax, nmax])
         names = rng.sample(range(nmax + 4), min(n, nmax + 4))
-        idents = rng.sample(range(0, 700), len(names)) if rng.random() < 0.8 else \
-            [rng.randrange(0, 300) for _ in names]
+        r = rng.random()
+        idents = rng.sample(range(0, 65536), len(names)) if r < 0.5 else (
+            rng.sample(range(0, 700), len(names)) if r < 0.85 else [rng.randrange(0, 300) for _ in names])
         if rng.random() < 0.1 and len(idents) > 2:
             idents[0] = idents[1]             # duplicated ident
         ent = [[nm, idt, rng.choice(self.tids)] for nm, idt in zip(names, idents)]
         if rng.random() < 0.1 and ent:
-            ent.append([ent[0][0], rng.randrange(700), rng.choice(self.tids)])   # name given twice
+            ent.append([ent[0][0], rng.randrange(65536), rng.choice(self.tids)])   # name given twice
         return ent
 
     def session(self, same_toc=False):
@@ -366,7 +367,7 @@ def _gen_sync(rng):
 def tie(ctx):
     coqrun.make(['C05/TieEnc.vo'], timeout=600)
     rng = ctx.rng
-    n = ctx.scale(360, 6000)
+    n = ctx.scale(240, 6000)
     gens = []
     for i in range(n):
         prof = 'many' if i % 120 == 7 else ('noise' if i % 4 == 1 else ('short' if i % 4 == 2 else 'std'))
@@ -378,17 +379,26 @@ def tie(ctx):
                                                  timeout=900)]
     for bi in bad[:4]:
         g = gens[bi]
-        mv = coqrun.eval_terms(HEADER, [g.coq_term('enc_run_full')], tag='c05f', timeout=900)[0]
-        i, r, m = _locate(g.full, mv)
+        lst = '[' + g.coq_term('X').split('[', 1)[1]
+        hs = coqrun.eval_terms(HEADER, ['map rec_hash (enc_run_recs init_st %s)' % lst], tag='c05f', timeout=900)[0]
+        d = _driver()
+        i = 0
+        while i < len(g.full) and i < len(hs):
+            a, b = d.st_hash(g.full[i])
+            if hs[i] != a + 65536 * b:
+                break
+            i += 1
+        m = coqrun.eval_terms(HEADER, ['nth %d (enc_run_recs init_st %s) []' % (i, lst)], tag='c05g',
+                              timeout=900)[0] if i < len(g.full) else None
         dis.append({'what': 'log history: model and implementation differ', 'history': g.evs[:i + 1],
                     'event_index': i, 'event': g.evs[i] if i < len(g.evs) else None,
-                    'impl_record': r, 'model_record': m,
-                    'record_format': '[#obs] obs.. [exception] state.. (coq/C05/TieEnc.v enc_run_full)'})
+                    'impl_record': g.full[i] if i < len(g.full) else None, 'model_record': m,
+                    'record_format': '[#obs] obs.. [exception] state.. (coq/C05/TieEnc.v enc_run_recs)'})
     if len(bad) > 4:
         dis.append({'what': 'log history: model and implementation differ', 'more_histories': len(bad) - 4})
     # SyncLogger scripts
     d = _driver()
-    ns = ctx.scale(300, 4000)
+    ns = ctx.scale(200, 4000)
     sterms, sexp, scripts = [], [], []
     for _ in range(ns):
         evs = _gen_sync(rng)
@@ -429,3 +439,393 @@ def tie(ctx):
         'exhaustive': False,
         'disagreements': dis,
     }
+
+
+# ------------------------------------------------------------------------------------------ oracle
+# The property text checked on the real classes with an independent device: a block decoder for the
+# create/append messages and a sample encoder for log data.  Nothing here uses the Coq model.
+DEV_FMT = {1: '<B', 2: '<H', 3: '<L', 4: '<b', 5: '<h', 6: '<i', 7: '<f', 8: '<e'}
+DEV_SIZE = {1: 1, 2: 2, 3: 4, 4: 1, 5: 2, 6: 4, 7: 4, 8: 2}
+DEV_NAME = {1: 'uint8_t', 2: 'uint16_t', 3: 'uint32_t', 4: 'int8_t', 5: 'int16_t', 6: 'int32_t', 7: 'float',
+            8: 'FP16'}
+INT_RANGE = {1: (0, 255), 2: (0, 65535), 3: (0, 2 ** 32 - 1), 4: (-128, 127), 5: (-32768, 32767),
+             6: (-2 ** 31, 2 ** 31 - 1)}
+
+
+class _Fail(Exception):
+    def __init__(self, cls, expected=None, observed=None, detail=''):
+        Exception.__init__(self, cls)
+        self.cls, self.expected, self.observed, self.detail = cls, expected, observed, detail
+
+
+def _same_value(ty, sent, got):
+    """sent: what the device encoded (int, or float bit pattern for 7/8); got: the Python value delivered"""
+    import math
+    if ty in INT_RANGE:
+        return isinstance(got, int) and not isinstance(got, bool) and got == sent
+    if not isinstance(got, float):
+        return False
+    fmt = DEV_FMT[ty]
+    ref = struct.unpack(fmt, sent.to_bytes(DEV_SIZE[ty], 'little'))[0]
+    if math.isnan(ref):
+        return math.isnan(got)
+    return struct.pack(fmt, got) == struct.pack(fmt, ref) and got == ref
+
+
+def _device_decode(pkts, ident):
+    """firmware view of the create/append messages (protocol V2): list of (type byte, index)"""
+    out = []
+    if not pkts:
+        raise _Fail('create_no_message', 'at least one create message', [])
+    for k, (port, chan, data, exp) in enumerate(pkts):
+        if port != 5 or chan != 1:
+            raise _Fail('create_wrong_port_channel', [5, 1], [port, chan])
+        if len(data) > 30:
+            raise _Fail('create_message_longer_than_30_bytes', '<= 30', len(data), 'message %d: %r' % (k, data))
+        if len(data) < 2:
+            raise _Fail('create_message_malformed', '>= 2 bytes', data)
+        want = 6 if k == 0 else 7
+        if data[0] != want or data[1] != ident:
+            raise _Fail('create_message_header', [want, ident], data[:2], 'message %d' % k)
+        if list(exp) != [want, ident]:
+            raise _Fail('create_expected_reply', [want, ident], list(exp))
+        n = (len(data) - 2) // 3
+        if k > 0 and n == 0:
+            raise _Fail('create_empty_append_message', '>= 1 variable', data)
+        for j in range(n):
+            t, lo, hi = data[2 + 3 * j: 5 + 3 * j]
+            out.append([t, lo + 256 * hi])
+    return out
+
+
+def _check_block(case):
+    """runs one block scenario on the real code; raises _Fail on the first deviation from the property"""
+    d = _driver()
+    im = d.Impl()
+    cf = im.cf
+
+    def ev(e):
+        flat, wires, code = im.apply(e)
+        return wires, code, list(im.obs)
+    toc = {}
+    for nm, ident, ty in case['toc']:
+        toc[nm] = (ident, ty)
+
+    def open_session():
+        ev(['refresh', True])
+        ev(['pkt', 1, [5, 0, 0]])
+        ev(['settoc', case['toc']])
+    open_session()
+    ms = case['ms']
+    ev(['new', ms])
+    spec = []          # what the user asked for: (name, fetch type or None, kind, stored, addr)
+    for v in case['vars']:
+        if v[0] == 't':
+            ev(['addvar', 0, v[1], v[2]])
+        elif v[0] == 'd':
+            ev(['addvar', 0, v[1], 0])
+        else:
+            ev(['addmem', 0, v[1], v[2], v[3], v[4]])
+        spec.append(v)
+    cfg = im.cfgs[0]
+    typed = [v for v in spec if v[0] != 'd']
+    dflt = [v for v in spec if v[0] == 'd']
+    table_names = [v[1] for v in spec if v[0] != 'm']
+    in_toc = all(n in toc for n in table_names)
+    size = sum(DEV_SIZE[v[2]] for v in typed) + sum(DEV_SIZE[toc[v[1]][1]] for v in dflt if v[1] in toc)
+    want_accept = in_toc and (10 <= ms < 2550) and size <= 26
+    wires, code, obs = ev(['addcfg', 0])
+    if wires:
+        raise _Fail('add_config_sent_packets', [], wires)
+    if (code == 0) != want_accept:
+        raise _Fail('accept_mismatch', 'accepted' if want_accept else 'rejected',
+                    'accepted' if code == 0 else 'raised code %d' % code,
+                    'names in TOC: %s, period_in_ms: %s, payload bytes: %s' % (in_toc, ms, size))
+    if not want_accept:
+        for op in ('start', 'stop', 'delete', 'create'):
+            wires, code, obs = ev([op, 0])
+            if wires:
+                raise _Fail('rejected_config_sent_packets', [], wires, op)
+        return
+    if cfg not in im.log.log_blocks or not cfg.valid:
+        raise _Fail('accepted_not_registered', True, [cfg.valid])
+    # the variable list the block must have on the device
+    want_vars = [[v[1], v[2], v[0] == 'm'] for v in typed] + [[v[1], toc[v[1]][1], False] for v in dflt]
+
+    def check_creation(tag):
+        wires, code, obs = ev(['start', 0])
+        if any(v[0] == 'm' for v in spec) and code == 3:
+            raise _Fail('raw_memory_variable_create_typeerror', 'creation messages for %d variables' % len(want_vars),
+                        'TypeError', 'LogConfig.add_memory variable: bytearray.append(bytes) in _setup_log_elements')
+        if code:
+            raise _Fail('create_raised' + tag, 'creation messages', 'exception code %d' % code)
+        if any(v[0] == 'm' for v in spec):
+            return None         # no device format to check raw-memory entries against
+        if wires and wires[0][2][:1] == [3] and tag:
+            raise _Fail('stale_added_flag_after_reconnect_start_skips_create',
+                        'create message for the re-added block (the device was reset)', wires,
+                        'added/started survive the reconnect, start() sends START for an id the device never saw')
+        ents = _device_decode(wires, cfg.id)
+        want = [[(f | (f << 4)) & 0x0F, toc[n][0]] for n, f, _m in want_vars]
+        got = [[t & 0x0F, i] for t, i in ents]
+        if got != want:
+            raise _Fail('create_variables_mismatch' + tag, want, got, 'device-side (fetch type, index) list')
+        return wires
+    wires = check_creation('')
+    if wires is None:
+        return
+    # acknowledgements
+    w, code, obs = ev(['pkt', 1, [6, cfg.id, 0]])
+    period = ms // 10
+    if [x[2] for x in w] != [[3, cfg.id, period]] or not cfg.added:
+        raise _Fail('create_ack_not_followed_by_start', [[3, cfg.id, period], True], [[x[2] for x in w], cfg.added])
+    if [o for o in obs if o[0] == 2] != [[2, 2, 0, 1, 1]]:
+        raise _Fail('added_cb_mismatch', [[2, 2, 0, 1, 1]], obs)
+    w, code, obs = ev(['pkt', 1, [3, cfg.id, 0]])
+    if not cfg.started or obs != [[2, 4, 0, 1, 1]] or w:
+        raise _Fail('start_ack_flag_or_cb', [True, [[2, 4, 0, 1, 1]]], [cfg.started, obs])
+    # samples
+    got_samples = []
+    cfg.data_received_cb.add_callback(lambda ts, data, c: got_samples.append((ts, dict(data), c)))
+    for ts, vals in case['samples']:
+        payload = []
+        for (n, f, _m), x in zip(want_vars, vals):
+            if f in INT_RANGE:
+                payload += list(struct.pack(DEV_FMT[f], x))
+            else:
+                payload += list(x.to_bytes(DEV_SIZE[f], 'little'))
+        del got_samples[:]
+        w, code, obs = ev(['pkt', 2, [cfg.id] + list(ts.to_bytes(3, 'little')) + payload])
+        if code or len(got_samples) != 1:
+            raise _Fail('sample_not_delivered_once', 1, [code, len(got_samples)])
+        gts, gd, gc = got_samples[0]
+        if gts != ts or gc is not cfg:
+            raise _Fail('sample_timestamp', ts, gts)
+        names = [d.name_str(n) for n, f, _m in want_vars]
+        if list(gd.keys()) != names:
+            raise _Fail('sample_names', names, list(gd.keys()))
+        for (n, f, _m), x in zip(want_vars, vals):
+            if not _same_value(f, x, gd[d.name_str(n)]):
+                raise _Fail('sample_value', [f, x], repr(gd[d.name_str(n)]), 'variable %s' % d.name_str(n))
+    # stop / delete
+    w, code, obs = ev(['stop', 0])
+    if [x[2] for x in w] != [[4, cfg.id]]:
+        raise _Fail('stop_packet', [[4, cfg.id]], w)
+    w, code, obs = ev(['pkt', 1, [4, cfg.id, 0]])
+    if cfg.started or obs != [[2, 4, 0, 1, 0]]:
+        raise _Fail('stop_ack_flag_or_cb', [False, [[2, 4, 0, 1, 0]]], [cfg.started, obs])
+    if case.get('delete'):
+        w, code, obs = ev(['delete', 0])
+        if [x[2] for x in w] != [[2, cfg.id]]:
+            raise _Fail('delete_packet', [[2, cfg.id]], w)
+        w, code, obs = ev(['pkt', 1, [2, cfg.id, 0]])
+        if cfg.added or cfg.started or obs != [[2, 2, 0, 1, 0]]:
+            raise _Fail('delete_ack_flag_or_cb', [False, False], [cfg.added, cfg.started, obs])
+    if not case.get('reconnect'):
+        return
+    # reconnect, add the same configuration again
+    before = [(v.name, v.fetch_as, v.is_toc_variable()) for v in cfg.variables]
+    ev(['linkdown'])
+    open_session()
+    w, code, obs = ev(['addcfg', 0])
+    after = [(v.name, v.fetch_as, v.is_toc_variable()) for v in cfg.variables]
+    if after != before:
+        raise _Fail('readd_duplicates_default_fetch_variables', before, after,
+                    're-adding after a reconnect changed the variable list (code %d)' % code)
+    if code:
+        raise _Fail('readd_rejected', 'accepted', 'code %d' % code)
+    check_creation('_after_reconnect')
+
+
+def _check_sync(case):
+    """SyncLogger: yields each decoded sample once, in order, ending at disconnect"""
+    d = _driver()
+    run = d.SyncRun()
+    queued = []
+    connected = False
+    sessions = 0
+
+    def cls(c):
+        # a deviation in a second or later session of the same object is the stale-queue defect F05d
+        return 'synclogger_reuse_stale_queue' if sessions >= 2 else c
+    for e in case['script']:
+        r = run.apply(e)
+        if e[0] == 'connect':
+            if not connected:
+                sessions += 1
+                queued = []
+            connected = True
+        elif e[0] == 'sample':
+            if connected:
+                queued.append(e[1])
+        elif e[0] == 'next':
+            if not connected:
+                if r != 1:
+                    raise _Fail(cls('sync_not_stopped_after_disconnect'), 'StopIteration', r)
+            elif queued:
+                want = queued.pop(0)
+                if r != 10 + want:
+                    raise _Fail(cls('sync_out_of_order_or_lost'), want,
+                                r - 10 if r >= 10 else {1: 'StopIteration', 2: 'blocks'}.get(r, r))
+            elif r != 2:
+                raise _Fail(cls('sync_unexpected_yield'), 'blocks (queue empty)',
+                            r - 10 if r >= 10 else {1: 'StopIteration'}.get(r, r))
+        elif e[0] in ('linklost', 'disconnect'):
+            connected = False
+            queued = []
+
+
+def _gen_block_case(rng, force=None):
+    tids = sorted(DEV_SIZE)
+    n_toc = rng.choice([12, 20, 30, 40])
+    names = rng.sample(range(0, 44), n_toc)
+    idents = rng.sample(range(0, 65536 if rng.random() < 0.6 else 300), n_toc)
+    toc = [[nm, i, rng.choice(tids)] for nm, i in zip(names, idents)]
+    tocd = {nm: ty for nm, i, ty in toc}
+    mode = force or rng.choice(['ones', 'ones', 'mixed', 'boundary', 'boundary', 'small'])
+    if mode == 'ones':
+        k = rng.choice([0, 1, 8, 9, 10, 11, 17, 18, 19, 20, 25, 26, 27])
+        tys = [rng.choice([1, 4]) for _ in range(k)]
+    elif mode == 'small':
+        tys = [rng.choice(tids) for _ in range(rng.randrange(1, 5))]
+    else:
+        target = rng.choice([25, 26, 26, 26, 27]) if mode == 'boundary' else rng.randrange(1, 28)
+        tys, tot = [], 0
+        while tot < target:
+            t = rng.choice(tids)
+            if tot + DEV_SIZE[t] > target:
+                t = rng.choice([1, 4])
+            tys.append(t)
+            tot += DEV_SIZE[t]
+    pool = list(names)
+    rng.shuffle(pool)
+    vs = []
+    miss = rng.random() < 0.06
+    for k, t in enumerate(tys):
+        if not pool:
+            break
+        nm = pool.pop()
+        r = rng.random()
+        if r < 0.15:
+            # default type: choose a name whose stored type has the wanted size when possible
+            cands = [p for p in pool if DEV_SIZE[tocd[p]] == DEV_SIZE[t]]
+            if cands:
+                pool.append(nm)
+                nm = rng.choice(cands)
+                pool.remove(nm)
+            vs.append(['d', nm])
+        elif r < 0.18:
+            vs.append(['m', nm, t, rng.choice(tids), rng.randrange(0, 1 << 32)])
+        else:
+            vs.append(['t', nm, t])
+    if miss and vs:
+        absent = [x for x in range(44, 50)]
+        vs[rng.randrange(len(vs))][1] = rng.choice(absent)
+    ms = 100 if rng.random() < 0.7 else rng.choice([10, 9, 2549, 2550, 2540, 0, -10, 500, 19, 20, 3000])
+    # samples
+    want_types = [v[2] for v in vs if v[0] != 'd'] + [tocd.get(v[1], 1) for v in vs if v[0] == 'd']
+    samples = []
+    for _ in range(rng.choice([1, 2, 3])):
+        vals = []
+        for t in want_types:
+            if t in INT_RANGE:
+                lo, hi = INT_RANGE[t]
+                vals.append(rng.choice([lo, hi, 0, rng.randint(lo, hi), rng.randint(lo, hi)]))
+            elif t == 7:
+                vals.append(rng.choice(FLOAT_SPECIALS32 + [rng.getrandbits(32)] * 6))
+            else:
+                vals.append(rng.choice(FLOAT_SPECIALS16 + [rng.getrandbits(16)] * 6))
+        samples.append([rng.choice([0, 0xFFFFFF, rng.getrandbits(24), rng.getrandbits(24)]), vals])
+    return {'kind': 'block', 'toc': toc, 'ms': ms, 'vars': vs, 'samples': samples,
+            'delete': rng.random() < 0.5, 'reconnect': rng.random() < 0.5}
+
+
+def _gen_sync_case(rng):
+    return {'kind': 'sync', 'script': [e for e in _gen_sync(rng)]}
+
+
+def _run_case(case):
+    try:
+        if case['kind'] == 'block':
+            _check_block(case)
+        else:
+            _check_sync(case)
+    except _Fail as f:
+        return {'class': f.cls, 'case': case, 'expected': f.expected, 'observed': f.observed, 'detail': f.detail}
+    return None
+
+
+def _corpus():
+    p = os.path.join(coqrun.VERIF, 'corpus', 'C05')
+    out = []
+    if os.path.isdir(p):
+        for f in sorted(os.listdir(p)):
+            if f.endswith('.json'):
+                out.append(json.load(open(os.path.join(p, f)))['case'])
+    return out
+
+
+def oracle(ctx, deep=False):
+    import random
+    rng = random.Random(ctx.seed * 7919 + 17)
+    fails = []
+    n = 0
+    cases = list(_corpus())
+    nb = ctx.scale(500, 8000) * (4 if deep else 1)
+    cases += [_gen_block_case(rng) for _ in range(nb)]
+    cases += [_gen_sync_case(rng) for _ in range(ctx.scale(200, 3000))]
+    seen = {}
+    for c in cases:
+        n += 1
+        f = _run_case(c)
+        if f is not None:
+            k = f['class']
+            seen[k] = seen.get(k, 0) + 1
+            if seen[k] <= 1 or (len(json.dumps(f['case'])) < len(json.dumps(
+                    next(x for x in fails if x['class'] == k)['case']))):
+                fails = [x for x in fails if x['class'] != k] + [f]     # keep the smallest witness per class
+    return {'evaluations': n, 'failures': fails,
+            'rule': 'random block scenarios on the real Log/LogConfig with an independent device (accept iff, nothing '
+                    'sent when rejected, V2 create/append messages decoded as the firmware does, acks -> flags and '
+                    'callbacks, samples encoded by type -> callback values, stop/delete, reconnect + re-add) and '
+                    'SyncLogger scripts (FIFO, stop at disconnect)',
+            'failure_counts': seen}
+
+
+def replay(payload, ctx):
+    return _run_case(payload['case'])
+
+
+TRUSTED_BASE = [
+    'C05/Model.v is hand-written from cflib/crazyflie/log.py, toc.py and syncLogger.py (add_config WITH fixes/F05b.patch); '
+    'tied on every run by differential execution of random histories on the real classes (fake Crazyflie), comparing '
+    'after every event the packets sent, callbacks, decoded samples, exception class and the complete state',
+    'C05/Gen_Consts.v (type table, MAX_LEN, MAX_DATA_SIZE, commands, error codes) is regenerated from the source by a '
+    'fail-closed ast reader (harness/props/c05_gen.py); the proofs are re-checked against it',
+    'device side (firmware) of the theorems: create/append payload = array of {u8 type, u16 index}, count = (size-2)/3 '
+    '(trailing partial entry ignored); log data = block id, 24-bit LE timestamp, values little-endian by fetch type. '
+    'Written from protocol knowledge (firmware source not available offline)',
+    'CPython struct for "<e"/"<f" is a bit cast (floats are carried as bit patterns, all NaNs identified in the tie)',
+]
+ASSUMPTIONS = [
+    'period_in_ms is an integer with |ms| < 2^31 (int(ms/10) = truncating division); float periods are not modelled',
+    'variable names are well-formed "group.name"; type names passed to add_variable/add_memory are in LogTocElement.types',
+    'single-threaded: packets are handled one at a time by Log._new_packet_cb (as the incoming-packet thread does)',
+    'SyncLogger.next() is only called when it would not block (queue non-empty or not connected); a blocked get() is '
+    'the YBlocked observation of the model',
+]
+PROVED = ('Over the model: add_config accepts iff names in TOC, 1<=int(ms/10)<=254 and payload<=26 and never sends; a '
+          'never-accepted configuration sends nothing in any history; for table variables the V2 create/append '
+          'messages are each <=30 bytes, headed 6/7+id, decoded by the device into exactly the variables in order '
+          '(split after every 9th variable, ceil(n/9) messages), create() always terminates; unpack_log_data and the '
+          'data-packet branch return exactly the encoded values for every type mix and the 24-bit timestamp; '
+          'added/started and their callbacks change exactly as the acknowledgements say and by nothing else; START is '
+          'sent exactly on the first positive create ack; the variable list of an accepted configuration is stable under '
+          'every later history including reconnect and re-add (with fixes/F05b.patch); SyncLogger session is FIFO, '
+          'at-most-once, and stops at the disconnect.')
+NOT_PROVED = ('Refuted on the unchanged code and kept as known findings: raw-memory variables (add_memory) make create() '
+              'raise TypeError (F05a); added/started are not reset by a new session, so start() after reconnect + re-add '
+              'sends START without creating the block (F05c).  Not covered: protocol V1 messages (model and tie only), '
+              'append acknowledgements (ignored by the code), samples still queued in SyncLogger at disconnect are '
+              'dropped, reuse of one SyncLogger object over several sessions (stale DISCONNECT marker; model and tie '
+              'only), float period arguments, the firmware itself.')
